@@ -9,6 +9,7 @@ import copy
 import json
 
 from bsim import simfs
+from bsim.sim import HarnessError
 
 PROPERTY = 'C15'
 PLAN = {
@@ -203,6 +204,8 @@ class Runner:
         for ns in [0, 1, 2, 'default']:
             try:
                 got = _run_coro(self.store(ns).get_all())
+            except simfs.Unmodelled as e:
+                raise HarnessError(str(e))
             except Exception as e:
                 self.v('read', f'store:get_all-raised:{type(e).__name__}:{tag}:after={after}', f'get_all({ns}) raised {e!r}; file: {str(self.fs.files.get(FILE))[:80]}')
                 return
@@ -263,6 +266,8 @@ class Runner:
                     self.v('oserror', f'store:unexpected-oserror:{kind}', repr(e))
                     return
                 crashed = True  # the operation failed with an injected I/O error: same oracle as a crash, process lives on
+            except simfs.Unmodelled as e:
+                raise HarnessError(str(e))
             except Exception as e:
                 tag = 'after-fault' if faulty else 'clean'
                 self.v('raised', f'store:{kind}-raised:{type(e).__name__}:{tag}', f'{kind}({ns}) raised {e!r}; file: {str(self.fs.files.get(FILE))[:60]}')
